@@ -40,6 +40,10 @@ def cases(tier, seed):
          'sparsity_param': [1e-3, 1e-2, 0.1, 0.5][(i // 3) % 4]}
     if name == 'SDML_Supervised':
       p['n_constraints'] = int(r.choice([10, 25, 40]))
+    # (progress output is a configuration like any other: it must not
+    # alter what is computed)
+    if i % 5 == 2:
+      p['verbose'] = True
     out.append({'est': name, 'params': p, 'fail': fail,
                 'frac': float(r.uniform(0.2, 1.0) if not fail
                               else r.choice([1.5, 5.0, 50.0])),
